@@ -182,10 +182,10 @@ def shlVartimeWide (lo hi : List Nat) (s : Nat) : Option ((List Nat × List Nat)
     | none => none
     | some up => some ((uzero n, up), WMAX)
   else
-    match expect (overflowingShlVartime lo s), expect (overflowingShrVartime lo (bits - s)),
-          expect (overflowingShlVartime hi s) with
-    | some nl, some ul, some uh => some ((nl, ubitor ul uh), WMAX)
-    | _, _, _ => none
+    -- `upper_lo = lower.wrapping_shr_vartime(Self::BITS - shift)`: zero when `shift = 0`
+    match expect (overflowingShlVartime lo s), expect (overflowingShlVartime hi s) with
+    | some nl, some uh => some ((nl, ubitor (wrappingShrVartimeU lo (bits - s)) uh), WMAX)
+    | _, _ => none
 
 /-- `Uint::overflowing_shr_vartime_wide((lower, upper), shift)`. -/
 def shrVartimeWide (lo hi : List Nat) (s : Nat) : Option ((List Nat × List Nat) × Nat) :=
@@ -197,10 +197,10 @@ def shrVartimeWide (lo hi : List Nat) (s : Nat) : Option ((List Nat × List Nat)
     | none => none
     | some low => some ((low, uzero n), WMAX)
   else
-    match expect (overflowingShrVartime hi s), expect (overflowingShlVartime hi (bits - s)),
-          expect (overflowingShrVartime lo s) with
-    | some nu, some lh, some ll => some ((ubitor ll lh, nu), WMAX)
-    | _, _, _ => none
+    -- `lower_hi = upper.wrapping_shl_vartime(Self::BITS - shift)`: zero when `shift = 0`
+    match expect (overflowingShrVartime hi s), expect (overflowingShrVartime lo s) with
+    | some nu, some ll => some ((ubitor ll (wrappingShlVartimeU hi (bits - s)), nu), WMAX)
+    | _, _ => none
 
 /-! ### `shl_limb`, `overflowing_shl1`, `shr1_with_carry` (crate-internal) -/
 
